@@ -69,6 +69,7 @@ type world struct {
 	subjBody map[string][]byte
 	arts     []artifact
 	hook     func(req *http.Request)
+	lists    int // listings issued so far: every third one names the subject as repo:tag@digest
 }
 
 const T1 = "application/vnd.example.sbom"
@@ -201,7 +202,16 @@ func (w *world) del(ctx context.Context, k int) error {
 var filters = []descriptor.MatchOpt{{}, {ArtifactType: T1}, {ArtifactType: T2}, {Annotations: map[string]string{"k": ""}}, {Annotations: map[string]string{"k": "v1"}}}
 
 func (w *world) list(ctx context.Context, s, f int) ([]descriptor.Descriptor, error) {
-	r, _ := ref.New(w.base + "@" + w.subjects[s])
+	// callers name a subject by digest, some of them with the tag they resolved it from (repo:tag@digest)
+	w.lists++
+	name := w.base + "@" + w.subjects[s]
+	if w.lists%3 == 0 {
+		name = w.base + ":v1@" + w.subjects[s]
+	}
+	r, err := ref.New(name)
+	if err != nil {
+		return nil, err
+	}
 	rl, err := w.rc.ReferrerList(ctx, r, scheme.WithReferrerMatchOpt(filters[f]))
 	return rl.Descriptors, err
 }
